@@ -21,8 +21,11 @@ struct C64World {
   std::vector<std::pair<int, int>> ctfr;
   ReuseableDataContainer64 reuse;
   bool asD; int prec = 2;
-  C64World(Rng& r, int K, bool rectil, bool d) : asD(d) {
-    auto mk = [&](int n) { Paths64 ps; for (int i = 0; i < n; ++i) ps.push_back(rectil ? rect_walk(r, 12, (int)r.range(2, 4), false) : rpoly(r, 40, (int)r.range(3, 6))); if (rectil) for (auto& p : ps) for (auto& q : p) { q.x *= 3; q.y *= 3; } return ps; };
+  C64World(Rng& r, int K, bool rectil, bool d, bool many = false) : asD(d) {
+    // "many": dozens of thin triangles standing in pairs on shared bottom vertices: more than 16 local minima, several at the same point
+    auto fan = [&](int pairs, int64_t x0, int64_t ybot) { Paths64 ps; for (int i = 0; i < pairs; ++i) { int64_t bx = x0 + 14 * i; int64_t h = 20 + 3 * (int64_t)r.range(0, 6);
+        ps.push_back(Path64{{bx, ybot}, {bx - 6, ybot - h}, {bx - 2, ybot - h}}); ps.push_back(Path64{{bx, ybot}, {bx + 2, ybot - h - 1}, {bx + 6, ybot - h - 1}}); } return ps; };
+    auto mk = [&](int n) { if (many) return fan(6 + n * 4, (int64_t)r.range(0, 9), 60 + (int64_t)r.range(0, 2) * 7); Paths64 ps; for (int i = 0; i < n; ++i) ps.push_back(rectil ? rect_walk(r, 12, (int)r.range(2, 4), false) : rpoly(r, 40, (int)r.range(3, 6))); if (rectil) for (auto& p : ps) for (auto& q : p) { q.x *= 3; q.y *= 3; } return ps; };
     set[1] = mk((int)r.range(1, 2)); set[2] = mk(1); set[4] = mk((int)r.range(1, 2)); set[5] = mk(1); set[0] = mk(1);
     for (int i = 0; i < 2; ++i) set[3].push_back(rpoly(r, 40, (int)r.range(2, 4)));
     for (int i = 0; i < K; ++i) ctfr.push_back({(int)r.range(1, 4), (int)r.range(0, 3)});
@@ -162,7 +165,7 @@ int cmd_hist(const Args& a) {
   std::ifstream in(args(a, "in", "")); std::ofstream os(args(a, "out", "/dev/stdout")); std::string line;
   long long nexec = 0, nh = 0, skip = argi(a, "skip", 0), stride = argi(a, "stride", 1), cnt = 0;
   if (kind == "c64" || kind == "cd") {
-    C64World w(r, K, argi(a, "rectil", 0) != 0, kind == "cd");
+    C64World w(r, K, argi(a, "rectil", 0) != 0, kind == "cd", argi(a, "many", 0) != 0);
     os << Ev("World").ks("kind", kind).kv("s1", jpaths(w.set[1])).kv("s2", jpaths(w.set[2])).kv("s3", jpaths(w.set[3])).kv("s4", jpaths(w.set[4])).kv("s5", jpaths(w.set[5])).kv("s0", jpaths(w.set[0])).str() << "\n";
     run_chunked(in, os, skip, stride, nh, kind, [&](const std::string& l, std::ostream& o, long long) { JV h = jparse(l); if (kind == "c64") run_c64<Clipper64>(w, h, o, "c64", r, nexec); else run_c64<ClipperD>(w, h, o, "cd", r, nexec); });
   } else if (kind == "off") {
